@@ -47,6 +47,13 @@ func tknCtLenFields(ct []byte) [][2]int {
 		{polOff + 2, 1}, {c1MatOff, 1}, {c1MatOff + 1, 1}, {envOff, 1}, {envOff + 1, 1}, {tagOff, 1}}
 }
 
+// fixtures shared with the structured formula generator (formula_test.go)
+var tknFix struct {
+	pk    tkn20.PublicKey
+	attrs tkn20.Attributes
+	ak    tkn20.AttributeKey
+}
+
 func init() {
 	pk, msk, err := tkn20.Setup(vlib.NewReader(100))
 	if err != nil {
@@ -58,6 +65,7 @@ func init() {
 	if err != nil {
 		panic(err)
 	}
+	tknFix.pk, tknFix.attrs, tknFix.ak = pk, attrs, ak
 	var cts [][]byte
 	for i, ps := range tknPolicyStrings[:2] {
 		var pol tkn20.Policy
